@@ -16,6 +16,7 @@ type CFG struct {
 	preds  map[*cfg.Block][]*cfg.Block
 	idom   map[*cfg.Block]*cfg.Block
 	defers []*ast.DeferStmt
+	comms  map[ast.Node]bool
 }
 
 // NodeRef identifies one CFG node.
@@ -296,6 +297,8 @@ func equalFacts(a, b FactSet) bool {
 
 // Transfer describes how facts change.
 type Transfer struct {
+	// BlockEntry is applied once when a block is entered (before its nodes).
+	BlockEntry func(b *cfg.Block, in FactSet) FactSet
 	// Node is applied to each node in order; it may mutate and must return the set.
 	Node func(ref NodeRef, in FactSet) FactSet
 	// Edge is applied when leaving block `from` to its k-th successor (after all nodes).
@@ -326,6 +329,9 @@ func (c *CFG) MustFlow(entry FactSet, tr Transfer) *FlowResult {
 		work = work[1:]
 		inWork[b] = false
 		cur := in[b].Clone()
+		if tr.BlockEntry != nil {
+			cur = tr.BlockEntry(b, cur)
+		}
 		for i := range b.Nodes {
 			ref := NodeRef{b, i}
 			res.before[ref] = cur.Clone()
@@ -479,4 +485,27 @@ func (c *CFG) Reaches(a, b NodeRef) bool {
 		stack = append(stack, x.Succs...)
 	}
 	return false
+}
+
+// selectComms returns the communication statements of all select clauses of the function
+// (go/cfg emits them as nodes before the branch; their effect belongs to the chosen clause only).
+func (c *CFG) selectComms() map[ast.Node]bool {
+	if c.comms != nil {
+		return c.comms
+	}
+	c.comms = map[ast.Node]bool{}
+	InspectNoLits(c.F.Body, func(n ast.Node) bool {
+		if _, ok := n.(*ast.FuncLit); ok && n != ast.Node(c.F.Lit) {
+			return false
+		}
+		if sl, ok := n.(*ast.SelectStmt); ok {
+			for _, cl := range sl.Body.List {
+				if cc := cl.(*ast.CommClause); cc.Comm != nil {
+					c.comms[cc.Comm] = true
+				}
+			}
+		}
+		return true
+	})
+	return c.comms
 }
